@@ -89,8 +89,11 @@ class Ctx:
                         work.append((m2, s2))
             # module-level string constants the rule may use (EXEC, ENV, W, ...) are expanded by looking for the last two path segments
             out = []
+            optional = set(getattr(mod, "OPTIONAL_FNS", ()) or ())     # alternative APIs a rule accepts: their absence is not a vanished anchor
             for k in sorted(gone):
                 tail2 = "::".join(k.split("::")[-2:])
+                if tail2 in optional:
+                    continue
                 tail1 = k.split("::")[-1]
                 if tail2 in text or ('"::%s"' % tail1) in text:
                     out.append(tail2)
